@@ -83,6 +83,8 @@ def groups(tier):
     gs += [g for g in common.aead_inc_groups("c16", ["C16"], ("start", "encrypt_block"), alias=False) if "ascon128_" in g.name]
     gs += [g for g in common.prf_l2_groups("c16", ["C16"]) if "prf_short" in g.name or "ascon_mac." in g.name]
     gs += [g for g in common.xof_l2_groups("c16", ["C16"]) if "ascon_hash.C64" in g.name + ".C64" or "init_custom" in g.name][:3]
+    # the masked ciphers take a const masked key that callers may share between threads: it must stay bit-for-bit unchanged
+    gs += [g for g in common.masked_aead_groups("c16", ["C16"], "quick") if ".ad0.m0" not in g.name]
     return gs
 
 
